@@ -179,7 +179,7 @@ def run_case(run, drv, case_seed, tier):
                 run.fail("impl-vs-spec", dict(case, route="cli", argv=[a.replace(box, "$BOX") for a in full]),
                          {"why": "metafile differs from the keyword route", "keys": [repr(k) for k in keys],
                           "shape": shape})
-            drv.ask("argparse " + " ".join(hx(a.encode("utf8")) for a in argv),
+            drv.ask("clirec " + hx(root.encode("utf8")) + " " + " ".join(hx(a.encode("utf8")) for a in argv),
                     ("argparse", dict(case, argv=[a.replace(box, "$BOX") for a in argv]), (opts, root, box)))
         # configuration file route
         cfg = os.path.join(box, "torrentfile.ini")
@@ -226,29 +226,45 @@ def run(tier, seed, replay=None):
 
 
 def table_and_model(run, drv):
-    """Compare the Lean argparse model on the same token lists (answers rendered by the
-    driver) with what the real parser + MetaFile recovery produced."""
+    """Compare the Lean argparse + MetaFile path-recovery model on the same token lists with
+    the record the options denote (which the real parser + MetaFile produced: the metafile
+    equality above is the implementation side of this comparison)."""
     for (kind, case, (opts, root, box)), req, out in drv.run():
         if out.startswith("ERR"):
             if os.environ.get("VERIF_DEV") and "bad-op" in out:
                 continue
             raise MachineryError(f"driver: {req[:60]} -> {out[:100]}")
         run.model_checked += 1
-        want = render(opts, root)
-        if out.strip() != want:
-            run.fail("impl-vs-model", case, {"correspondence": "Impl.argparse + metaInit",
-                                             "model": out[:300], "impl": want[:300]})
+        got = parse_kw(out)
+        want = render(opts, root, os.path.join(box, "cli.torrent"))
+        if got != want:
+            diff = {k: (got.get(k) if got else None, want.get(k)) for k in want
+                    if not got or got.get(k) != want.get(k)}
+            run.fail("impl-vs-model", case, {"correspondence": "Impl.argparse + metaInit (clirec)",
+                                             "model": out[:200], "differs": diff})
 
 
-def render(opts, root):
-    """canonical rendering of the keyword record, same format as the driver"""
+def parse_kw(out):
+    t = out.split()
+    if not t or t[0] != "kw":
+        return None
+    rec = dict(x.split("=", 1) for x in t[1:])
+    if rec.get("path") == "N":
+        rec["path"] = rec.get("content")
+    rec.pop("content", None)
+    return rec
+
+
+def render(opts, root, out):
+    """the keyword record the options denote, in the driver's rendering"""
     e = lambda s: hx(s.encode("utf8"))
-    parts = []
+    rec = {"path": "s:" + e(root)}
     for k in ("announce", "url_list", "httpseeds"):
-        parts.append(k + "=" + ",".join(e(u) for u in opts.get(k, [])))
-    parts.append("private=" + ("1" if opts.get("private") else "0"))
-    for k in ("source", "comment", "piece_length", "meta_version"):
-        parts.append(k + "=" + (e(opts[k]) if k in opts else "none"))
-    parts.append("align=" + ("1" if opts.get("align") else "0"))
-    parts.append("content=" + e(root))
-    return " ".join(parts)
+        rec[k] = ("l:" + ",".join(e(u) for u in opts[k])) if k in opts else ("l:" if k == "announce" else "N")
+    rec["private"] = "T" if opts.get("private") else "F"
+    for k in ("source", "comment", "piece_length"):
+        rec[k] = ("s:" + e(opts[k])) if k in opts else "N"
+    rec["meta_version"] = "s:" + e(opts.get("meta_version", "1"))
+    rec["outfile"] = "s:" + e(out)
+    rec["align"] = "T" if opts.get("align") else "F"
+    return rec
